@@ -47,13 +47,13 @@ func hooksByName(P *Program, name string) *Hooks {
 					return
 				}
 				inplace := "(<= (+ " + s.Len + " " + n + ") " + s.Cap + ")"
-				g.oblige("frame-store", "append:"+text, pos, st.reach, or(not(inplace), eq(n, "0"), g.ownedTerm(s.Arr, false)))
+				g.oblige("frame-store", text, pos, st.reach, or(not(inplace), eq(n, "0"), g.ownedTerm(s.Arr, false)))
 			},
 			onCopy: func(g *Gen, st *State, d *Val, n string, pos token.Pos, text string) {
 				if !isByteElem(elemTypeOf(d.T)) {
 					return
 				}
-				g.oblige("frame-store", "copy:"+text, pos, st.reach, or(eq(n, "0"), g.ownedTerm(d.Arr, false)))
+				g.oblige("frame-store", text, pos, st.reach, or(eq(n, "0"), g.ownedTerm(d.Arr, false)))
 			},
 		}
 	}
